@@ -873,3 +873,50 @@ def f4_result(tier):
             out.append(scn("F4/result-n%d-k%s" % (n, k), wf, "F4",
                            outcomes={"*": [["succeeded", "$uniq"]]}, inputs={"xs": list(range(n))}))
     return out
+
+
+# ----------------------------------------------------------------------------- graph shapes (C14)
+def graph_shapes(tier):
+    """Fan-out/fan-in, nested and mixed splits, parallel edges, cycles, commands: shapes for the composer."""
+    out = []
+    # k-ary fan-out into multi-referenced tasks, depth 2 and 3 (split tracking / pruning)
+    for width in (2, 3):
+        for depth in (2, 3) if tier != "quick" else (2,):
+            tasks = {}
+            prev = ["r%d" % i for i in range(width)]
+            for p in prev:
+                tasks[p] = T()
+            for lv in range(depth):
+                cur = ["l%d_%d" % (lv, i) for i in range(width)]
+                for p in prev:
+                    tasks[p]["next"] = [N(S, list(cur))]
+                for c in cur:
+                    tasks[c] = T()
+                prev = cur
+            out.append(("G/fan-w%d-d%d" % (width, depth), WF(tasks)))
+    # mixed: split then join at different levels
+    out.append(("G/split-then-join", WF({
+        "a": T([N(S, "s")]), "b": T([N(S, "s")]),
+        "s": T([N(S, ["x", "y"])]), "x": T([N(S, "j")]), "y": T([N(S, "j")]), "j": T([N(S, "t")], join="all"), "t": T()})))
+    # several transitions between the same pair, with different conditions and positions
+    out.append(("G/parallel-edges-3", WF({
+        "a": T([N(S, "b"), N(F, "b"), N(C, ["b", "c"]), N(None, "c")]), "b": T(), "c": T()})))
+    # command targets in every position
+    out.append(("G/commands", WF({
+        "a": T([N(S, ["b", "noop"]), N(F, ["fail"]), N(C, "continue"), N(F, "retry")]), "b": T([N(None, "noop")])})))
+    # cycles: self loop, two-cycle with exit, cycle with fork extending from it
+    out.append(("G/self-loop", WF({"p": T([N(S, "a")]), "a": T([N(F, "a"), N(S, "b")]), "b": T()})))
+    out.append(("G/cycle-fork", WF({
+        "p": T([N(S, "a")]), "a": T([N(S, ["b", "c"])]), "b": T([N(F, "a")]), "c": T([N(S, "d")]), "d": T()})))
+    out.append(("G/cycle-join", WF({
+        "p": T([N(S, "a")]), "a": T([N(S, ["b", "c"])]), "b": T([N(S, "j")]), "c": T([N(S, "j")]),
+        "j": T([N(F, "a")], join="all")})))
+    # diamond chains
+    out.append(("G/diamonds", WF({
+        "a": T([N(S, ["b", "c"])]), "b": T([N(S, "d")]), "c": T([N(S, "d")]),
+        "d": T([N(S, ["e", "f"])]), "e": T([N(S, "g")]), "f": T([N(S, "g")]), "g": T()})))
+    # join with retry and join count
+    out.append(("G/join-retry", WF({
+        "a": T([N(S, ["b", "c"])]), "b": T([N(S, "j")]), "c": T([N(S, "j")]),
+        "j": T(join=1, retry={"count": 2, "delay": 1, "when": F})})))
+    return out
